@@ -54,7 +54,9 @@ SPEC = {
         "SIGPIPE is ignored in the harness (any pipe-using program must), so EPIPE is an error return",
         "run_process' last argument is taken in microseconds (the implementation's name; the header calls it timeout_secs)",
         "communicate never reads stderr, so a child filling a stderr pipe is outside its contract: the child's stderr is a pipe only when the script writes <= 16 KiB there, else /dev/null",
-        "a hang without the state-based witness (both sides blocked on each other's pipes, no byte moved for 100 samples) is "
-        "reported as inconclusive, never as a violation",
+        "hang witnesses are state-based (100 consecutive /proc samples): child blocked on a pipe to the parent while the parent is blocked "
+        "or looping without moving a byte; child a zombie while the parent sits in one call without a timeout; parent has sat through "
+        "timeout+20 s of its own poll timeouts with the child alive. A hang without a witness is inconclusive, never a violation",
+        "communicate's 'deadline' variant uses 60 s; a call that really takes longer (overloaded machine) is counted, not judged",
     ],
 }
